@@ -149,6 +149,38 @@ func setScenarios(c *Ctx) ([]drive.SetScenario, []string) {
 		sc2 := drive.SetScenario{Members: []render.SetMember{{P: th2, Exec: true}, {P: cp, Exec: true}}, Waits: [][]int{{3000}}}
 		sc2.Flows = []render.MsgFlow{{Src: "P0_" + h2, Dst: "P1_" + cid}}
 		add("msgflow-catch", sc2)
+		// two processes use the same variable name: one stores it as a task result, the other
+		// decides on it later -- each process has its own variables, the reader sees its own value
+		{
+			wb := prog.NewBuilder("writer")
+			ws := wb.AddNode("start", "")
+			wt := wb.AddNode("task", "")
+			wb.N(wt).Writes = []string{"x"}
+			wb.P.Dom["x"] = []int{0, 7}
+			wb.P.Vars0["x"] = 0
+			we := wb.AddNode("end", "")
+			wb.Connect(ws, wt, prog.Cond{})
+			wb.Connect(wt, we, prog.Cond{})
+			rb := prog.NewBuilder("reader")
+			rs := rb.AddNode("start", "")
+			r1 := rb.AddNode("task", "")
+			r2 := rb.AddNode("task", "")
+			rx := rb.AddNode("xor", "")
+			hit := rb.AddNode("task", "")
+			miss := rb.AddNode("task", "")
+			re1 := rb.AddNode("end", "")
+			re2 := rb.AddNode("end", "")
+			rb.P.Dom["x"] = []int{0, 7}
+			rb.P.Vars0["x"] = 0
+			rb.Connect(rs, r1, prog.Cond{})
+			rb.Connect(r1, r2, prog.Cond{})
+			rb.Connect(r2, rx, prog.Cond{})
+			rb.Connect(rx, hit, prog.Cond{K: "eq", V: "x", C: 7})
+			rb.N(rx).Default = rb.Connect(rx, miss, prog.Cond{})
+			rb.Connect(hit, re1, prog.Cond{})
+			rb.Connect(miss, re2, prog.Cond{})
+			add("same-variable-name", drive.SetScenario{Members: []render.SetMember{{P: wb.Done(), Exec: true}, {P: rb.Done(), Exec: true}}, Waits: [][]int{{3000}}})
+		}
 		// two throws (one token through two throw events) addressed to ONE catch event: the first
 		// wakes it, the second finds nothing listening and is dropped; the set completes
 		{
